@@ -5,6 +5,7 @@ package genbank
 
 import (
 	"bufio"
+	"errors"
 	"io"
 	"strings"
 	"unicode"
@@ -280,6 +281,14 @@ func ReadGenBank(r io.Reader) (Genbank, error) {
 	case header == "ORIGIN":
 		field = genbankField{header: header, lines: lines}
 		gb.ORIGIN = parseGenbankORIGIN(field)
+	}
+
+	// the ORIGIN is used as the reference sequence by variants / sam variants: like any other
+	// nucleotide sequence read by gofasta it may only hold IUPAC nucleotide codes
+	for _, b := range gb.ORIGIN {
+		if !strings.ContainsRune("ACGTRYSWKMBDHVNacgtryswkmbdhvn", rune(b)) || b > unicode.MaxASCII {
+			return gb, errors.New("invalid nucleotide in genbank ORIGIN: \"" + string(rune(b)) + "\"")
+		}
 	}
 
 	return gb, nil
